@@ -160,7 +160,7 @@ func (w *wireRun) srvDied(s *wireSrv, conf, what string, data []byte) bool {
 		}
 		// the server is gone: a crash (C01, C16), and whatever the variant was observing - the reply's addressing,
 		// the configured option values reaching the client - did not happen either
-		for _, p := range []string{"C01", "C16", "C15", "C17", "C11", "C13"} {
+		for _, p := range []string{"C01", "C16", "C15", "C17", "C11", "C13", "C19", "C12", "C09", "C14"} {
 			w.ctx.Viol(p, "wire-crash:"+childFrame(l), "%s: the server process exited (%v) after %s %x\n%s", conf, err, what, data[:min(len(data), 120)], firstLines(l, 16))
 		}
 		return true
